@@ -1,6 +1,9 @@
 //! Re-runs a recorded input against the real crate in /repo (public API only).
-use espada::card::Card;
-use espada::evaluator::MadeHand;
+use espada::card::{Card, Rank, Suit};
+use espada::evaluator::{MadeHand, Showdown};
+use espada::hand_range::CardPair;
+
+mod search;
 
 fn cards7(args: &[String]) -> [Card; 7] {
     let v: Vec<Card> = args.iter().map(|s| s.parse().expect("card")).collect();
@@ -15,8 +18,20 @@ fn main() {
             let h: MadeHand = cards7(&args[2..9]).into();
             println!("OBSERVED index={} category={:?}", h.power_index(), h.hand_type());
         }
+        Some("showdown") => {
+            // replay showdown <5 board cards> <hole cards as 4-char pairs>...
+            let board: Vec<Card> = args[2..7].iter().map(|s| s.parse().expect("card")).collect();
+            let players: Vec<CardPair> = args[7..].iter().map(|s| s.parse().expect("pair")).collect();
+            let r = search::check_showdown(&players, [board[0], board[1], board[2], board[3], board[4]]);
+            match r { Ok(s) => println!("OK {}", s), Err(s) => { println!("MISMATCH {}", s); std::process::exit(1); } }
+        }
+        Some("showdown-search") => {
+            let seed: u64 = args[2].parse().unwrap();
+            let n: u64 = args[3].parse().unwrap();
+            std::process::exit(search::showdown_search(seed, n));
+        }
         _ => {
-            eprintln!("usage: replay eval <7 cards>");
+            eprintln!("usage: replay eval <7 cards> | showdown <board> <pairs> | showdown-search <seed> <n>");
             std::process::exit(2);
         }
     }
